@@ -170,6 +170,22 @@ def run(ctx):
             viol("incomplete", "after %s the cell does not cover every frame" % ops, dict(ops=ops))
         if m is not None and m != got:
             ctx.broke("correspondence:cell-setters", "n=%d ops %s: impl %s model %s" % (n, ops, got, m))
+        # whatever state the assignments left (complete, none, lengths only, angles only): slicing, stacking, joining and atom subsetting
+        # give a complete per-frame cell exactly when this trajectory has one
+        prods_ = {"t[0:n]": lambda: t[0:n], "t[[0]]": lambda: t[[0]], "t.slice(copy=False)": lambda: t.slice(slice(0, n), copy=False), "t.stack(t)": lambda: t.stack(t),
+                  "md.join([t])": lambda: md.join([t]), "t.join(t)": lambda: t.join(t), "t.atom_slice": lambda: t.atom_slice([0, 2])}
+        for name_, fn_ in prods_.items():
+            try:
+                r_ = fn_()
+            except Exception:  # noqa: BLE001
+                continue
+            ctx.count("completeness checks after setter histories")
+            has_ = r_.unitcell_lengths is not None and r_.unitcell_angles is not None and r_.unitcell_vectors is not None
+            if has_ != bool(have) or (has_ and len(r_.unitcell_lengths) != r_.n_frames):
+                viol("completeness|after-setters|" + name_, "after %s the trajectory has %s (lengths %s, angles %s); %s has %s" % (
+                    ops, "a complete cell" if have else "no complete cell", "set" if t.unitcell_lengths is not None else "None", "set" if t.unitcell_angles is not None else "None",
+                    name_, "a complete cell" if has_ else "no complete cell"), dict(ops=ops, op=name_))
+                break
     # completeness through slicing / joining / stacking / atom subsetting / save+load
     for cell in (True, False):
         t = tf.make_traj(5, 12, cell=cell)
